@@ -509,6 +509,22 @@ fn run_case(c: &Value) -> (String, usize, Value) {
                     }
                     b
                 }
+                "keys" => {
+                    // property names that read like array indexes or sizes: nothing in the input may size an allocation
+                    let key = c["key"].as_str().unwrap_or("0").as_bytes().to_vec();
+                    let n = c["n"].as_u64().unwrap_or(1) as usize;
+                    let mut b = Vec::new();
+                    if c["kind"] == "ecma" { b.push(8); b.extend_from_slice(&(n as u32).to_be_bytes()); } else { b.push(3); }
+                    for i in 0..n {
+                        let k: Vec<u8> = if i + 1 == n { key.clone() } else { format!("{}", i).into_bytes() };
+                        b.extend_from_slice(&(k.len() as u16).to_be_bytes());
+                        b.extend_from_slice(&k);
+                        b.push(0);
+                        b.extend_from_slice(&(i as f64).to_be_bytes());
+                    }
+                    b.extend_from_slice(&[0, 0, 9]);
+                    b
+                }
                 "marker" => {
                     // every marker byte followed by a large declared length / count
                     let mut b = vec![c["byte"].as_u64().unwrap_or(0) as u8];
@@ -688,6 +704,7 @@ fn run_cfg(cfg: &str, entry: &str, v: u32, n: usize) -> (String, bool) {
             ("chunk_size", "server.config") | ("window", "server.config") | ("bandwidth", "server.config") => {
                 let mut c = ServerSessionConfig::new();
                 match cfg { "chunk_size" => c.chunk_size = v, "window" => c.window_ack_size = v, _ => c.peer_bandwidth = v }
+                let c2 = c.clone();
                 match ServerSession::new(c) {
                     Err(_) => ("err".into(), false),
                     Ok((mut srv, rs)) => {
@@ -709,6 +726,11 @@ fn run_cfg(cfg: &str, entry: &str, v: u32, n: usize) -> (String, bool) {
                             Ok(p) => { for o in peer.decode(&p) { if o["msg"]["k"] != "Video" { good = false; } } }
                             Err(_) => good = false,
                         }
+                        // "C02 holds for it": complete dialogues with a real client session, whole and fragmented delivery
+                        for (k, mode) in [0u64, 3, 2].iter().enumerate() {
+                            let mut r2 = Rng::new(0x5EED ^ (v as u64) ^ ((k as u64) << 40));
+                            good &= crate::interop::exchange(&mut r2, "quick", ClientSessionConfig::new(), c2.clone(), *mode).2;
+                        }
                         ("ok".into(), good)
                     }
                 }
@@ -716,6 +738,7 @@ fn run_cfg(cfg: &str, entry: &str, v: u32, n: usize) -> (String, bool) {
             ("chunk_size", "client.config") | ("window", "client.config") => {
                 let mut c = ClientSessionConfig::new();
                 if cfg == "chunk_size" { c.chunk_size = v } else { c.window_ack_size = v }
+                let c2 = c.clone();
                 match ClientSession::new(c) {
                     Err(_) => ("err".into(), false),
                     Ok((mut cl, _)) => {
@@ -730,6 +753,10 @@ fn run_cfg(cfg: &str, entry: &str, v: u32, n: usize) -> (String, bool) {
                             Ok(rs) => for r in rs.iter() { if let ClientSessionResult::OutboundResponse(p) = r { for o in peer.decode(p) { if o["msg"]["k"] == "Undecodable" { good = false; } } } },
                         }
                         match cl.send_ping_request() { Ok((p, _)) => { for o in peer.decode(&p) { if o["msg"]["et"] != "PingRequest" { good = false; } } } Err(_) => good = false }
+                        for (k, mode) in [0u64, 3, 2].iter().enumerate() {
+                            let mut r2 = Rng::new(0xC11E ^ (v as u64) ^ ((k as u64) << 40));
+                            good &= crate::interop::exchange(&mut r2, "quick", c2.clone(), ServerSessionConfig::new(), *mode).2;
+                        }
                         ("ok".into(), good)
                     }
                 }
@@ -894,6 +921,13 @@ pub fn cases(kind: &str, tier: &str, seed: u64) -> Vec<Value> {
                     for &n in [200u64, 2000, 20000].iter() {
                         if *kind == "object" && c != 1024 { continue; }
                         v.push(json!({"t":"amf","shape":"siblings","kind":kind,"count":c,"n":n}));
+                    }
+                }
+            }
+            for kind in ["ecma", "object"].iter() {
+                for key in ["0", "1", "65536", "2000000", "16777215", "100000000", "2147483647", "4294967295", "4294967296", "18446744073709551615", "1e9", "-1"].iter() {
+                    for &n in [1u64, 2, 5].iter() {
+                        v.push(json!({"t":"amf","shape":"keys","kind":kind,"key":key,"n":n}));
                     }
                 }
             }
